@@ -1,21 +1,28 @@
 #!/bin/bash
-# validate every delivered seed under /tmp/seed_out and run all built checks against it
+# Validate every delivered-but-not-yet-filed seed under /tmp/seed_out (3 at a time): demo passes on the pristine
+# tree, fails with the patch, pinned suite still passes with the patch.  Valid seeds are filed under /verif/seeded/.
+# Which checks catch them is recorded afterwards by tools/recheck_seeds.py.
 cd /verif
-PROPS=$(ls rules | grep -E '^c[0-9]+\.py$' | sed 's/\.py//' | tr a-z A-Z | paste -sd, -)
+todo=""
 for d in /tmp/seed_out/C*/[0-9]; do
   pid=$(basename $(dirname $d)); i=$(basename $d)
   [ -f $d/patch.diff ] || continue
-  [ -f $d/meta.json ] || echo "{\"property\": \"$pid\", \"summary\": \"(meta.json not delivered by the sub-agent; see patch.diff)\", \"needs\": \"see demo.py\"}" > $d/meta.json
-  echo "=== $pid/$i"
-  tools/validate_seed.py $pid $i --props=$PROPS 2>&1 | /venv/bin/python -c "
+  [ -d /verif/seeded/$pid-$i ] && continue
+  [ -f $d/meta.json ] || continue
+  todo="$todo $pid:$i"
+done
+echo "TODO:$todo"
+one() {
+  p=$1; pid=${p%%:*}; i=${p##*:}
+  out=$(tools/validate_seed.py $pid $i --props=$pid 2>&1 | grep -v WARNING | /venv/bin/python -c '
 import sys,json
 t=sys.stdin.read()
 try:
-    d=json.loads(t[t.index('{'):])
-    caught={p:v['rules'] for p,v in d['checks'].items() if v['exit']==1}
-    broken={p for p,v in d['checks'].items() if v['exit']==2}
-    print('valid=',d['valid'],'demo',d['demo_pristine_exit'],d['demo_patched_exit'],'baseline',d.get('baseline_ok'),'CAUGHT',caught,'BROKEN',sorted(broken))
-except Exception as e:
-    print('PARSE-ERROR', e, t[-400:])
-"
-done
+    d=json.loads(t[t.index("{"):]); print("valid=",d["valid"],"demo",d["demo_pristine_exit"],d["demo_patched_exit"],"applies",d["patch_applies"],"baseline",d.get("baseline_ok"))
+except Exception as e: print("PARSE-ERROR",e,t[-300:])
+')
+  echo "=== $pid/$i $out"
+}
+export -f one
+for t in $todo; do echo $t; done | xargs -P 3 -I{} bash -c 'one {}'
+echo DONE
